@@ -1140,6 +1140,28 @@ def c32(run):
     sample_scenario(run, t, has_nested, maxlen=4)
 
 
+def has_bulk(sc):
+    return any(c.get('fn') in ('update_object', 'update_text', 'batch_create', 'splice_values', 'init_root') for e in sc for c in e.get('calls', []))
+
+
+def c27(run):
+    run.cov["rule"] = ("programs over 2-3 replicas in which half of the calls are update_text(obj, s), update_object(obj, v), "
+                       "batch_create_object(obj, prop, v, insert), splice with nested values and init_root_from_hydrate, with "
+                       "targets drawn from a grammar of nested values (depth <= 2, width <= 2: maps, lists, texts incl. "
+                       "multi-unit characters and empty text, scalars incl. counters and null), on prior states with "
+                       "conflicts, tombstones and nested objects; Trace_Seq: after the call the image of the object "
+                       "(winners only, ids and conflict markers forgotten) equals the target value, everything outside the "
+                       "object's subtree is unchanged, wrong kinds / indexes are errors; Trace_Interp on the same traces ties "
+                       "the result to the decoded ops and Trace_Same to reload; update_spans and init_from_hydrate are not "
+                       "exercised; non-trivial = scenario with a bulk call")
+    t = os.path.join(run.work, "bulk.ndjson")
+    drive(["bulk", run.seed, sizes(run, 200, 5000), t])
+    run.validate("Trace_Seq.tla", ["C27"], t, "bulk-seq")
+    run.validate("Trace_Interp.tla", ["C02"], t, "bulk-interp")
+    count_nontrivial(run, t, has_bulk)
+    sample_scenario(run, t, has_bulk, maxlen=5)
+
+
 def replay(run, path):
     """re-validate a recorded violating scenario"""
     from . import tlc_trace
@@ -1167,6 +1189,7 @@ REG = {
     "C30": ("model_checking", c30),
     "C34": ("model_checking", c34),
     "C32": ("model_checking", c32),
+    "C27": ("model_checking", c27),
     "C15": ("fault_enumeration", c15),
     "C16": ("fault_enumeration", c16),
     "C17": ("fault_enumeration", c17),
